@@ -5,12 +5,17 @@ LEVEL = "exploration"
 
 def run(ctx):
     th = ctx.thorough
+    # project configurations (sgconfig.yml) from their own value classes
+    cm = vlib.model_check(ctx, "mc/MC_C11cfg.tla", "mc/MC_C11cfg.cfg", workers=2, timeout=600)
+    cvec = ctx.path("cfg-vectors.ndjson")
+    vlib.write_ndjson(cvec, cm.vec)
+    ctx.cov["project_configurations_in_model"] = len(cm.vec)
     r, summ, rec, n, bad = vlib.pipeline(
-        ctx, ("mc/MC_C11.tla", "mc/MC_C11_thorough.cfg"), ["drive", "c11", "--seed", ctx.seed, "--tier", ctx.tier],
+        ctx, ("mc/MC_C11.tla", "mc/MC_C11_thorough.cfg"), ["drive", "c11", "--seed", ctx.seed, "--tier", ctx.tier, "--vectors2", cvec],
         ("trace/Trace_C11.tla", "trace/Trace_C11.cfg"),
         slim=lambda c: {"id": c["id"], "doc": c["doc"], "text": c["text"], "runs": [x for x in c["runs"] if x["outcome"] not in ("ok", "error")]},
         facts=lambda c, reason: {"reason": reason[0], "mode": reason[1], "scenario": reason[0][6:] if reason[0].startswith("known:") else None},
-        what=lambda c, reason: "%s as %s: %s (%s)" % (c["id"], reason[1], reason[0], {k: v for k, v in c["doc"].items() if v not in ("absent", "valid", "default", "present", "js", "none")}),
+        what=lambda c, reason: "%s as %s: %s (%s)" % (c["id"], reason[1], reason[0], {k: v for k, v in c["doc"].items() if v not in ("absent", "valid", "default", "present", "js", "none", "n/a", True)}),
         mc_kw={"workers": 4, "timeout": 1200}, drive_timeout=6000)
     # ---- stage 2: the text-dependent part of an accepted rule, enumerated from a model of its own.
     # StringCase.tla transcribes the word splitting of `convert` (a byte-offset state machine); MC_StringCase checks that
